@@ -452,11 +452,13 @@ GAP_KINDS = ['issue-refused', 'issue-not-next-index', 'issue-beyond-gap', 'issue
 KINDS['C12'] = KINDS['C12'] + GAP_KINDS
 GAP_TIERS = dict(
     quick=dict(mc=[{'G': '2', 'MaxIssue': '6', 'MaxBlocks': '5'}, {'G': '3', 'MaxIssue': '7', 'MaxBlocks': '4'}],
-               gens=[dict(G='2', num=70, len=14), dict(G='3', num=50, len=16), dict(G='4', num=20, len=18, MaxIssue='9'), dict(G='2', num=6000, len=12, want='miss', sample=3)]),
+               gens=[dict(G='2', num=70, len=14), dict(G='3', num=50, len=16), dict(G='4', num=20, len=18, MaxIssue='9'), dict(G='2', num=6000, len=12, want='miss', sample=3),
+                     dict(G='2', num=1500, len=12, want='edge', sample=8), dict(G='3', num=3000, len=14, want='edge', sample=8)]),
     thorough=dict(mc=[{'G': '2', 'MaxIssue': '7', 'MaxBlocks': '6'}, {'G': '3', 'MaxIssue': '8', 'MaxBlocks': '5'}, {'G': '4', 'MaxIssue': '9', 'MaxBlocks': '4'}],
                   gens=[dict(G='2', num=900, len=16), dict(G='3', num=700, len=18), dict(G='4', num=400, len=20, MaxIssue='10'),
                         dict(G='5', num=200, len=24, MaxIssue='12', MaxBlocks='12'),
-                        dict(G='2', num=30000, len=12, want='miss', sample=40)]),
+                        dict(G='2', num=30000, len=12, want='miss', sample=40),
+                        dict(G='2', num=10000, len=14, want='edge', sample=80), dict(G='3', num=20000, len=16, want='edge', sample=80), dict(G='4', num=30000, len=18, want='edge', sample=60, MaxIssue='10')]),
 )
 
 
